@@ -14,11 +14,34 @@ namespace GV.Props.C04
 open GV.CborT GV.Model.MsgCodec GV.Proofs.MsgCodec
 
 /-- Full statement (what the property demands of a decoder `d` for shape `s`):
-    every well-typed value round-trips, and only trees the strict reading
-    accepts are accepted. -/
+    every well-typed value round-trips, and only trees that have the shape the
+    type requires (`conforms`: arity and field kinds, stated without building a
+    value) are accepted. -/
 def C04_full (d : Shape → Cbor → Option Val) : Prop :=
   (∀ s v, hasShape s v = true → d s (encVal v) = some v) ∧
-  (∀ s t v, d s t = some v → decVal Mode.strict s t = some v)
+  (∀ s t v, d s t = some v → conforms s t = true)
+
+/-- The strict reading satisfies the full statement: it round-trips every value and
+    accepts exactly the conforming trees. -/
+theorem strict_full : C04_full (decVal Mode.strict) := by
+  refine ⟨fun s v h => dec_enc Mode.strict s v h, fun s t v h => ?_⟩
+  rw [← strict_iff_conforms s t, h]; rfl
+
+/-- `strict = conforms`: the strict reading accepts a tree iff it has the required shape. -/
+theorem strict_accepts_iff_conforms (s : Shape) (t : Cbor) :
+    (decVal Mode.strict s t).isSome = conforms s t := strict_iff_conforms s t
+
+/-- The code as it is accepts everything that has the required shape, with the same value
+    (the silent conversions only ever *add* accepted inputs). -/
+theorem strict_imp_lax (s : Shape) (t : Cbor) (v : Val) (h : decVal Mode.strict s t = some v) :
+    decVal Mode.lax s t = some v := strict_lax s t v h
+
+theorem conforms_imp_lax (s : Shape) (t : Cbor) (h : conforms s t = true) :
+    ∃ v, decVal Mode.lax s t = some v := by
+  rw [← strict_iff_conforms s t] at h
+  cases hv : decVal Mode.strict s t with
+  | none => rw [hv] at h; cases h
+  | some v => exact ⟨v, strict_lax s t v hv⟩
 
 /-- Round trip, tree level: every value a constructor can build (of ANY shape)
     decodes back to itself, under the code-as-is reading and under the strict one. -/
@@ -38,8 +61,8 @@ theorem msg_bytes_roundtrip (s : Shape) (v : Val) (hs : hasShape s v = true) (hl
 theorem C04_partial : ∀ s v, hasShape s v = true → decVal Mode.lax s (encVal v) = some v :=
   dec_enc_lax
 
-/-- After the repair a point is a list of 0 or 2 items (any header form). -/
-theorem point_strict (t : Cbor) (v : Val) (h : decPoint t = some v) :
+/-- After the repair a point is a list of 0 or 2 items (any header form), in every mode. -/
+theorem point_strict (strip : Bool) (t : Cbor) (v : Val) (h : decPoint strip t = some v) :
     ∃ xs, items t = some xs ∧ (xs.length = 0 ∨ xs.length = 2) := by
   unfold decPoint at h
   split at h
@@ -48,15 +71,12 @@ theorem point_strict (t : Cbor) (v : Val) (h : decPoint t = some v) :
   · cases h
 
 /-- …and a two-item point is `[unsigned slot, byte-string hash]`. -/
-theorem point_fields (x y : Cbor) (w : W) (v : Val) (h : decPoint (.arr w [x, y]) = some v) :
+theorem point_fields (x y : Cbor) (w : W) (v : Val) (h : decPoint false (.arr w [x, y]) = some v) :
     ∃ ws slot hash, x = .int false ws slot ∧ strPayload false y = some hash ∧ v = .s [.u slot, .h hash] := by
-  unfold decPoint items at h
-  simp only at h
+  simp only [decPoint, items, Bool.false_eq_true, ↓reduceIte] at h
+  unfold pointPair at h
   split at h
-  · rename_i heq; cases heq
-  · rename_i ws slot hh heq
-    simp only [Option.some.injEq, List.cons.injEq, and_true] at heq
-    obtain ⟨rfl, rfl⟩ := heq
+  · rename_i ws slot
     split at h
     · rename_i hash hp
       simp only [Option.some.injEq] at h
@@ -69,9 +89,9 @@ theorem point_old_witness :
     (decPointOld (.arr .w0 [.int false .w0 1, .int false .w0 2, .int false .w0 3])).map render = some "(0,h)" ∧
     (decPointOld (.arr .w0 [.int false .w0 5])).map render = some "(0,h)" ∧
     (decPointOld (.prim .w0 22)).map render = some "(0,h)" ∧
-    (decPoint (.arr .w0 [.int false .w0 1, .int false .w0 2, .int false .w0 3])).isNone = true ∧
-    (decPoint (.arr .w0 [.int false .w0 5])).isNone = true ∧
-    (decPoint (.prim .w0 22)).isNone = true := by
+    (decPoint true (.arr .w0 [.int false .w0 1, .int false .w0 2, .int false .w0 3])).isNone = true ∧
+    (decPoint true (.arr .w0 [.int false .w0 5])).isNone = true ∧
+    (decPoint true (.prim .w0 22)).isNone = true := by
   decide
 
 /-- Recorded findings: the second clause of `C04_full` fails for the code as it is.
@@ -93,9 +113,8 @@ theorem lax_witness :
 theorem C04_witness : ¬ C04_full (decVal Mode.lax) := by
   intro h
   have h2 := h.2 (.fixed 4) (.str false .w0 [1, 2]) (.h [1, 2, 0, 0]) rfl
-  have h3 : decVal Mode.strict (.fixed 4) (.str false .w0 [1, 2]) = none := rfl
-  rw [h3] at h2
-  cases h2
+  revert h2
+  decide
 
 /-- Strict arity: a toarray struct takes exactly one item per field. -/
 theorem struct_arity (m : Mode) (fs : List Shape) (xs : List Cbor) (vs : List Val)
